@@ -17,14 +17,7 @@ impl ForeignKeyBuilder for PostgresQueryBuilder {
 
         write!(sql, "DROP CONSTRAINT ").unwrap();
         if let Some(name) = &drop.foreign_key.name {
-            write!(
-                sql,
-                "{}{}{}",
-                self.quote().left(),
-                name,
-                self.quote().right()
-            )
-            .unwrap();
+            Alias::new(name).prepare(sql.as_writer(), self.quote());
         }
     }
 
@@ -48,14 +41,8 @@ impl ForeignKeyBuilder for PostgresQueryBuilder {
 
         if let Some(name) = &create.foreign_key.name {
             write!(sql, "CONSTRAINT ").unwrap();
-            write!(
-                sql,
-                "{}{}{} ",
-                self.quote().left(),
-                name,
-                self.quote().right()
-            )
-            .unwrap();
+            Alias::new(name).prepare(sql.as_writer(), self.quote());
+            write!(sql, " ").unwrap();
         }
 
         write!(sql, "FOREIGN KEY (").unwrap();
